@@ -407,7 +407,7 @@ def sweep_cases(o, fam, tier, seed0=1):
 
 
 SWEEP_FAMILIES = {"C01": "d", "C02": "dcq", "C03": "des", "C05": "descq", "C07": "s", "C08": "a", "C09": "i", "C10": "c",
-                  "C11": "e", "C12": "des", "C13": "g", "C14": "q", "C15": "q", "C16": "bs", "C18": "u"}
+                  "C11": "e", "C12": "des", "C13": "g", "C14": "q", "C15": "q", "C16": "bs", "C18": "u", "C19": "f"}
 
 
 def gen_C01(o, rng, tier):
